@@ -29,7 +29,7 @@ CLAIMED = {
    ref="DESIGN.md §4 C16"),
  "C15": dict(
    text="Every conforming peer script of <= 2/3 frames (as in C06, small payloads) with ONE mutation at every position: a reserved bit set (each bit / every combination), a reserved opcode (3,7,11,15 / all ten), the mask bit, a control frame with FIN clear, a control frame with 126 payload bytes (16-bit form; 65536 bytes in the 64-bit form in the thorough tier), a continuation with no message in progress, a new data frame inside a fragmented message, a frame longer than the configured maximum; under every segmentation into <= 2/3 reads (splits 1..2/4 or the rest); read through the frame-level (blocking and async) and the message-level (blocking and async) APIs. Asserted: frames before the mutated one are fine; the read covering it returns an error (fragmentation rules: from the message-level API); no message containing it is delivered; after a framing violation State()==StateClosedByUs, the last queued frame is a Close with status 1002 (unmasked with its own key), and Write/AsyncWrite/WriteFrame are refused without queuing anything; no panic. The decoder-level totality for arbitrary bytes is C07.",
-   note="Not yet covered: message total above the maximum across fragments, caller buffer too small. A control frame using a non-minimal length encoding with <= 125 bytes is not a violation the property lists and is not asserted.",
+   note="VerifC15_SizeLimits adds: a message whose fragments are each within the maximum but whose total exceeds it, and a message larger than the caller's buffer, through the blocking and asynchronous message APIs. A control frame using a non-minimal length encoding with <= 125 bytes is not a violation the property lists and is not asserted.",
    ref="DESIGN.md §4 C15"),
  "C06": dict(
    text="Real Stream (client role) + CodecConn + FrameCodec + ByteBuffer over a scripted transport. Sessions: every conforming peer script of <= 3/4 frames forming <= 2 messages (text/binary, any legal fragmentation, pings/pongs anywhere, payload lengths from the class representatives {0,1,2,125,126} quick, + {65535,65536} thorough, symbolic payload bytes), every segmentation of the byte stream into <= 2/4 reads with split sizes 1..3/16 or 'the rest', through each of NextFrame, AsyncNextFrame, NextMessage, AsyncNextMessage: every frame/message is delivered once, in order, with the script's type, length and byte-identical payload (every byte compared), async callbacks exactly once. One-frame harness: payload length fully symbolic up to a symbolic max <= 2^31 (all three length encodings decided by the solver), <= 2/3 segments of symbolic sizes, payload compared at an arbitrary index.",
